@@ -2,13 +2,21 @@ import FitModel.DecoderApi
 /-!
 Specification of C07 — "a sequence decodes the same whatever the decoder did before".
 
-`specRun` gives, for a history of API calls, what every call must return **using fresh decoders only**:
-it tracks nothing but the options, the stream position of the start of the current sequence (`cur`),
-the reader's whole stream, and whether the object is dead (sticky error, C03). What `Decode`, `Discard`,
-`PeekFileHeader`, `PeekFileId` must return for the sequence at `cur` is, by definition, what the same call
-returns on a decoder created by `decoder.New` on exactly those bytes (`St.fresh`): a function of the bytes
-and the options only. `none` = the property demands nothing of that call's result (the verdict of
-`CheckIntegrity` is C04's subject; calls after the position was lost).
+`specRun` gives, for a history of API calls, what every call must return **using new decoders only**: it tracks
+nothing but the options, the stream from the first byte of the current sequence (`cur`), the reader's whole stream, and
+whether the object is dead (sticky error, C03). What `Decode`, `Discard`, `PeekFileHeader`, `PeekFileId` must return
+for the sequence at `cur` is, by definition, what the same call returns on a decoder created by `decoder.New` on exactly
+those bytes (`St.fresh`): a function of the bytes and the options only.
+
+**Where the next sequence starts does not depend on the operation that consumed the current one**: the extent of a
+sequence in the stream is fixed once, by the protocol (`seqExtent`: header size + the data size the header declares + the
+two bytes of the file CRC). A sequence whose last record runs past the declared data size is consumed differently by
+`Decode` (which reads the whole record, then two CRC bytes) and by `Discard` / `CheckIntegrity` (which skip exactly the
+data size): after such a predecessor the specification still demands, for every way of consuming it, what a new decoder
+returns for the bytes that start at the protocol's end of the predecessor. `Spec.lost` only records that this happened
+(class of KF-C07-4, `NoOverrun`); no demand reads it.
+
+`none` = the property demands nothing of that call's result (only the verdict of `CheckIntegrity`, which is C04's subject).
 -/
 namespace Fit.DecApi
 
@@ -18,17 +26,14 @@ inductive Phase
   | start
   /-- the file header of the current sequence was read (by `PeekFileHeader` or `Next`) -/
   | header
-  /-- `PeekFileId` succeeded: `delivered` listener calls were made for the current sequence; `lost` = the last record the
-  peek decoded overran the data window the header declares (a malformed sequence; what `Discard` leaves is then not
-  comparable with a fresh decoder's) -/
-  | fileId (delivered : Nat) (lost : Bool)
+  /-- `PeekFileId` succeeded: `delivered` listener calls were made for the current sequence; `over` = the last record the
+  peek decoded ran past the data size the header declares -/
+  | fileId (delivered : Nat) (over : Bool)
   /-- a peek (or the header read of `Next`) failed on the current sequence: the error is sticky (C03) for everything
-  but the demanded result of `Decode`, which stays what a fresh decoder returns for the sequence -/
+  but the demanded result of `Decode`, which stays what a new decoder returns for the sequence -/
   | peekFailed (e : Err) (delivered : Nat)
   /-- a `Decode` / `Discard` failed or the context was cancelled: every call returns that error until `Reset` -/
   | dead (e : Err)
-  /-- the position was lost (`Discard` after a peek that overran the data window): nothing is demanded until `Reset` -/
-  | blind
   deriving DecidableEq, Repr, Inhabited
 
 structure Spec where
@@ -39,6 +44,10 @@ structure Spec where
   /-- no byte was consumed since `New` / `Reset` / `CheckIntegrity` (`d.n == 0`: `Next` answers true without reading) -/
   atStart : Bool := true
   ph : Phase := .start
+  /-- bookkeeping of the class "a predecessor's last record overruns its declared data size" (KF-C07-4): some sequence
+  consumed since `New` / `Reset` / `CheckIntegrity` was left by a new decoder performing the consuming operation somewhere
+  else than at the protocol's end of the sequence. Read by `Spec.excluded` only — never by a demand. -/
+  lost : Bool := false
   deriving Repr, Inhabited
 
 def Spec.fresh (o : Opts) (bytes : List Nat) : Spec := { o := o, cur := bytes, whole := bytes }
@@ -46,15 +55,23 @@ def Spec.fresh (o : Opts) (bytes : List Nat) : Spec := { o := o, cur := bytes, w
 /-- what a decoder created on the current sequence's bytes does -/
 def Spec.st (p : Spec) : St := St.fresh p.o p.cur
 
-/-- the sequence was consumed: the next one starts where the fresh decoder stopped -/
-def Spec.advance (p : Spec) (rest : List Nat) : Spec := { p with cur := rest, atStart := false, ph := .start }
+/-- **the extent of the sequence that starts at the head of `b`, by the protocol alone**: the header size (its first
+byte) + the data size the header declares (bytes 4–7, little endian) + the two bytes of the file CRC. It is the same for
+every operation and every option. -/
+def seqExtent (b : List Nat) : Nat := b.getD 0 0 + le32 (b.drop 4) + 2
 
-/-- `Decode` with `k` listener calls already made for the sequence: the demanded result is the fresh decoder's -/
+/-- the sequence was consumed: the next one starts at the protocol's end of this one, whatever consumed it. `rest` =
+where a new decoder performing the consuming operation stopped (recorded in `lost` when it is somewhere else). -/
+def Spec.next (p : Spec) (rest : List Nat) : Spec :=
+  { p with cur := p.cur.drop (seqExtent p.cur), atStart := false, ph := .start,
+           lost := p.lost || decide (rest ≠ p.cur.drop (seqExtent p.cur)) }
+
+/-- `Decode` with `k` listener calls already made for the sequence: the demanded result is the new decoder's -/
 def specDecode (p : Spec) (k : Nat) (sticky : Option Err) : Spec × Option (Out × List Event) :=
   let (s', out, evs) := stepDecode p.st
   let p' := match sticky, out with
     | some e, _ => { p with ph := .dead e }
-    | none, .fit _ => p.advance s'.rest
+    | none, .fit _ => p.next s'.rest
     | none, .err e => { p with ph := .dead e }
     | none, _ => p
   (p', some (out, evs.drop k))
@@ -64,7 +81,7 @@ calls were already made for it by a peek): the demanded result is that of the sa
 def specDecodeAt (p : Spec) (d k : Nat) : Spec × Option (Out × List Event) :=
   let (s', out, evs) := stepDecodeCtxAt k p.st
   let p' := match out with
-    | .fit _ => p.advance s'.rest
+    | .fit _ => p.next s'.rest
     | .err e => { p with ph := .dead e }
     | _ => p
   (p', some (out, evs.drop d))
@@ -98,17 +115,17 @@ def specPeekFileId (p : Spec) : Spec × Option (Out × List Event) :=
     | _ => { p with ph := .fileId evs.length (decide (s'.q.cur > s'.q.hdr.dataSize)), atStart := false },
    some (out, evs))
 
+/-- `Discard`: the demanded result is the new decoder's `Discard` of the sequence -/
 def specDiscard (p : Spec) : Spec × Option (Out × List Event) :=
   let (s', out, _) := stepDiscard p.st
   (match out with
-    | .done => p.advance s'.rest
+    | .done => p.next s'.rest
     | .err e => { p with ph := .dead e }
     | _ => p, some (out, []))
 
 def specStep (p : Spec) (op : Op) : Spec × Option (Out × List Event) :=
   match op, p.ph with
   | .reset o b, _ => (Spec.fresh o b, some (.done, []))
-  | _, .blind => (p, none)
   -- Decode
   | .decode, .dead e | .decodeCtx _, .dead e => (p, some (.err e, []))
   | .decode, .start | .decode, .header | .decodeCtx false, .start | .decodeCtx false, .header => specDecode p 0 none
@@ -129,10 +146,9 @@ def specStep (p : Spec) (op : Op) : Spec × Option (Out × List Event) :=
   | .peekHeader, _ => (p, some ((stepPeekHeader p.st).2.1, []))
   | .peekFileId, .fileId _ _ => (p, some ((stepPeekFileId p.st).2.1, []))
   | .peekFileId, _ => specPeekFileId p
-  -- Discard
+  -- Discard (also after a peek whose last record overran the data size: the sequence ends where the protocol says)
   | .discard, .dead e => (p, some (.err e, []))
   | .discard, .peekFailed e _ => ({ p with ph := .dead e }, some (.err e, []))
-  | .discard, .fileId _ true => ({ p with ph := .blind }, none)
   | .discard, _ => specDiscard p
   -- Next
   | .next, .dead _ | .next, .peekFailed _ _ => (p, some (.bool false, []))
@@ -143,7 +159,7 @@ def specStep (p : Spec) (op : Op) : Spec × Option (Out × List Event) :=
   | .next, _ => (p, some (.bool true, []))
   -- CheckIntegrity (+ re-seek): its own verdict is C04's subject; afterwards the decoder stands at the start of the stream
   | .checkIntegrity, .dead _ | .checkIntegrity, .peekFailed _ _ => (p, none)
-  | .checkIntegrity, _ => ({ p with cur := p.whole, atStart := true, ph := .start }, none)
+  | .checkIntegrity, _ => ({ p with cur := p.whole, atStart := true, ph := .start, lost := false }, none)
 
 def specRun : Spec → List Op → List (Option (Out × List Event))
   | _, [] => []
@@ -151,8 +167,29 @@ def specRun : Spec → List Op → List (Option (Out × List Event))
     let (p', r) := specStep p op
     r :: specRun p' ops
 
-/-! ### known-finding classes (evaluated on the model's run): none is open (F08, F09, F10 are repaired in /repo) -/
+/-! ### the class of KF-C07-4: a predecessor's last record overruns its declared data size
 
-def kfRun (_p : Spec) (_a : Api) (_ops : List Op) : List String := []
+`Decode` / `DecodeWithContext` read the whole last record and then two CRC bytes; `Discard` and `CheckIntegrity` skip
+exactly the declared data size and then two bytes; `Discard` after a `PeekFileId` that has already read past the data
+size skips only two more bytes. Whenever the records of a sequence do not end exactly at the declared data size these
+positions differ, so what the decoder returns for the NEXT sequence depends on how this one was consumed. -/
+
+/-- the operation `op`, called in the specification state `p`, lies in the class: it follows (with no `Reset` /
+`CheckIntegrity` + re-seek in between) the consumption of a sequence that a new decoder leaves somewhere else than at
+the protocol's end of the sequence, or it is the `Discard` that follows a `PeekFileId` whose last record overran -/
+def Spec.excluded (p : Spec) : Op → Bool
+  | .reset _ _ => false
+  | .checkIntegrity => false
+  | .discard => p.lost || (match p.ph with | .fileId _ true => true | _ => false)
+  | _ => p.lost
+
+/-- no operation of the history lies in the class (decidable: a `Bool`) -/
+def noOverrun : Spec → List Op → Bool
+  | _, [] => true
+  | p, op :: ops => !p.excluded op && noOverrun (specStep p op).1 ops
+
+/-- the known-finding classes of an operation line (evaluated by the driver's `--kf`) -/
+def kfRun (p : Spec) (_a : Api) (ops : List Op) : List String :=
+  if noOverrun p ops then [] else ["KF-C07-4"]
 
 end Fit.DecApi
